@@ -159,7 +159,7 @@ Fixpoint tbl_decref (k : pyval) (n : Z) (t : table) : table :=
 (* ------------------------------------------------------------------ events *)
 Inductive nop :=
 | OpCall | OpRepr | OpStr | OpHash | OpDir | OpIter | OpIslice | OpBool | OpDict | OpRaise | OpCmp | OpIndex
-| OpIsinstance | OpGetMethods | OpIdPack | OpHasConn | OpPickle.
+| OpIsinstance | OpGetMethods | OpIdPack | OpHasConn | OpPickle | OpFuncStr.
 
 Inductive event :=
 | EMsg                                          (* the next message is taken from the channel *)
@@ -257,7 +257,7 @@ Definition handlers : list (string * hdef) :=
    ("getattr", {| h_min := 2; h_defaults := []; h_body := get_attr P0 P1 |});
    ("delattr", {| h_min := 2; h_defaults := []; h_body := XAccess PDel P0 P1 XTup0 |});
    ("setattr", {| h_min := 3; h_defaults := []; h_body := XAccess PSet P0 P1 (tup1 P2) |});
-   ("callattr", {| h_min := 3; h_defaults := [XUnit]; h_body := XCall (get_attr P0 P1) XTup0 P2 P3 |});
+   ("callattr", {| h_min := 3; h_defaults := [XUnit]; h_body := XLet (get_attr P0 P1) (XCall (XLocal 0) XTup0 P2 P3) |});
    ("ctxexit", {| h_min := 2; h_defaults := [];
                   h_body := XLet (XCtxArgs P1) (XCall (get_attr P0 (XText "__exit__")) XTup0 (XLocal 0) XUnit) |});
    ("instancecheck", {| h_min := 2; h_defaults := [];
@@ -273,8 +273,13 @@ Definition dispatch : list (Z * string) :=
   [(1, "ping"); (2, "close"); (3, "getroot"); (4, "getattr"); (5, "delattr"); (6, "setattr"); (7, "call"); (8, "callattr");
    (9, "repr"); (10, "str"); (11, "cmp"); (12, "hash"); (13, "dir"); (14, "pickle"); (15, "del"); (16, "inspect");
    (17, "buffiter"); (18, "oldslicing"); (19, "ctxexit"); (20, "instancecheck")]%Z%string.
+(* the if-ladders of _dispatch, _unbox and _box as data (tie: HostileTie) *)
+Inductive dact := DRequest | DReply | DException.
+Inductive uact := UValue | UTuple | ULocal | URemote.
+Definition msg_ladder : list (Z * dact) := [(1, DRequest); (2, DReply); (3, DException)]%Z.
+Definition unbox_ladder : list (Z * uact) := [(1, UValue); (2, UTuple); (3, ULocal); (4, URemote)]%Z.
+Definition box_ladder : list (string * Z) := [("dumpable", 1); ("tuple", 2); ("own_netref", 3); ("else", 4)]%Z%string.
 Definition MSG_REQUEST := 1%Z. Definition MSG_REPLY := 2%Z. Definition MSG_EXCEPTION := 3%Z.
-Definition LABEL_VALUE := 1%Z. Definition LABEL_TUPLE := 2%Z. Definition LABEL_LOCAL_REF := 3%Z. Definition LABEL_REMOTE_REF := 4%Z.
 Definition HANDLE_INSPECT := 16%Z.
 Definition MAXINT : Z := 9223372036854775807%Z.
 
@@ -309,6 +314,10 @@ Variable S : sem W.
 Variable C : config.
 Variable HT : list (string * hdef).      (* handler bodies *)
 Variable DT : list (Z * string).         (* handler numbers *)
+Variable ML : list (Z * dact).           (* _dispatch ladder *)
+Variable UL : list (Z * uact).           (* _unbox ladder *)
+Variable BL : list (string * Z).         (* _box ladder *)
+Definition blabel (k : string) : pyval := PInt (match assoc_s k BL with Some z => z | None => 0%Z end).
 
 Definition state := hst W.
 Definition M (A : Type) := state -> state * res A.
@@ -367,7 +376,7 @@ Fixpoint box (f : nat) (v : lval) : M pyval :=
   | O => unm
   | Datatypes.S f' =>
     match as_value v with
-    | Some p => ret (PTuple [PInt LABEL_VALUE; p])
+    | Some p => ret (PTuple [blabel "dumpable"; p])
     | None =>
       match v with
       | LT l =>
@@ -376,9 +385,9 @@ Fixpoint box (f : nat) (v : lval) : M pyval :=
                        | [] => ret []
                        | x :: r => dom p <- box f' x; dom ps <- go r; ret (p :: ps)
                        end) l;
-          ret (PTuple [PInt LABEL_TUPLE; PTuple ps])
-      | LP idp => ret (PTuple [PInt LABEL_LOCAL_REF; idp])
-      | LO o => dom k <- lend o; ret (PTuple [PInt LABEL_REMOTE_REF; k])
+          ret (PTuple [blabel "tuple"; PTuple ps])
+      | LP idp => ret (PTuple [blabel "own_netref"; idp])
+      | LO o => dom k <- lend o; ret (PTuple [blabel "else"; k])
       | _ => unm                      (* an implementation-internal object would be lent: not modelled *)
       end
     end
@@ -408,6 +417,20 @@ Definition xid_of_rcls (c : Vinegar.rcls) : xid :=
       else match std_of_name n with Some e => XStd e | None => XExcOther end
   | _ => XExcOther
   end.
+(* exc.args = a needs an iterable; setattr(exc, n, v) with a special name and a plain value is refused with TypeError
+   (only AttributeError is swallowed by vinegar.load) *)
+Definition iterable (a : pyval) : bool :=
+  match a with PTuple _ | PBytes _ | PStr _ | PFset _ => true | _ => false end.
+Definition set_fails (nv : pyval * pyval) : bool :=
+  match fst nv with
+  | PStr n =>
+      if text_eqb n (txt "__class__") || text_eqb n (txt "__dict__") then true
+      else if text_eqb n (txt "__traceback__") || text_eqb n (txt "__cause__") || text_eqb n (txt "__context__")
+           then (match snd nv with PNone => false | _ => true end)
+      else if text_eqb n (txt "args") then negb (iterable (snd nv))
+      else false
+  | _ => true                                   (* attribute name must be string *)
+  end.
 (* self._unbox_exc(payload): the exception object, or the exception raised while building it *)
 Definition load_exc (payload : pyval) : M xid :=
   fun s =>
@@ -416,8 +439,12 @@ Definition load_exc (payload : pyval) : M xid :=
     match r with
     | Ok Vinegar.LStop => (s', ROk (XStd StopIteration))
     | Ok (Vinegar.LStr _) => (s', ROk (XStd TypeError))          (* raise "text": exceptions must derive from BaseException *)
-    | Ok (Vinegar.LExc c _ _ (Vinegar.Done _ _)) => (s', ROk (xid_of_rcls c))
-    | Ok (Vinegar.LExc _ _ _ (Vinegar.Fail e)) => (s', RRaise (XStd e))
+    | Ok (Vinegar.LExc c a sets st) =>
+        if negb (iterable a) || existsb set_fails sets then (s', RRaise (XStd TypeError))
+        else match st with
+             | Vinegar.Done _ _ => (s', ROk (xid_of_rcls c))
+             | Vinegar.Fail e => (s', RRaise (XStd e))
+             end
     | Raise e => (s', RRaise (XStd e))
     | _ => (s', RUnm)
     end.
@@ -448,6 +475,12 @@ Definition methods_ok (v : lval) : res unit :=
   end.
 Definition sane_name (n : text) : bool := forallb (fun c => (N.leb 32 c) && (N.ltb c 127)) n.
 
+(* tuple(self._unbox(item) for item in value): a StopIteration raised inside the generator expression comes out as RuntimeError (PEP 479) *)
+Definition in_genexpr {A} (m : M A) : M A :=
+  fun s => match m s with
+           | (s', RRaise (XStd StopIteration)) => (s', RRaise XExcOther)
+           | r => r
+           end.
 Fixpoint unbox (f : nat) (pkg : pyval) : M lval :=
   match f with
   | O => unm
@@ -455,9 +488,9 @@ Fixpoint unbox (f : nat) (pkg : pyval) : M lval :=
     dom lv <- lift (Vinegar.unpack 2 pkg);
     match lv with
     | [label; value] =>
-      match num_of label with
-      | Some 1%Z => ret (LV value)
-      | Some 2%Z =>
+      match match num_of label with Some z => assoc_z z UL | None => None end with
+      | Some UValue => ret (LV value)
+      | Some UTuple =>
           dom items <- lift (iter_elems false value);
           match value, items with
           | PFset _, _ :: _ :: _ => unm         (* iteration order of a frozenset *)
@@ -465,12 +498,12 @@ Fixpoint unbox (f : nat) (pkg : pyval) : M lval :=
             dom l <- (fix go (l : list pyval) : M (list lval) :=
                         match l with
                         | [] => ret []
-                        | x :: r => dom v <- unbox f' x; dom vs <- go r; ret (v :: vs)
+                        | x :: r => dom v <- in_genexpr (unbox f' x); dom vs <- go r; ret (v :: vs)
                         end) items;
             ret (LT l)
           end
-      | Some 3%Z => resolve value
-      | Some 4%Z =>
+      | Some ULocal => resolve value
+      | Some URemote =>
           match index3 value with
           | ROk (a, b, c) =>
               match py_str a with
@@ -496,7 +529,7 @@ Fixpoint unbox (f : nat) (pkg : pyval) : M lval :=
           | RRaise x => raise x
           | RUnm => unm
           end
-      | _ => raise_std ValueError               (* invalid label *)
+      | None => raise_std ValueError            (* invalid label *)
       end
     | _ => raise_std ValueError
     end
@@ -578,11 +611,13 @@ Definition access (p : permkey) (tgt nm : lval) (extra : list lval) : M lval :=
   end.
 
 (* tuple(itertools.islice(a, b)): the count is validated before the iterator is taken *)
-Definition islice_count (b : lval) : M (option nat) :=
+Fixpoint take_z {A} (z : Z) (l : list A) : list A :=
+  match l with [] => [] | x :: r => if (0 <? z)%Z then x :: take_z (z - 1)%Z r else [] end.
+Definition islice_count (b : lval) : M (option Z) :=
   match b with
   | LV PNone => ret None
-  | LV (PInt z) => if (0 <=? z)%Z && (z <=? MAXINT)%Z then ret (Some (Z.to_nat z)) else raise_std ValueError
-  | LV (PBool c) => ret (Some (if c then 1%nat else 0%nat))
+  | LV (PInt z) => if (0 <=? z)%Z && (z <=? MAXINT)%Z then ret (Some z) else raise_std ValueError
+  | LV (PBool c) => ret (Some (if c then 1%Z else 0%Z))
   | LO o => dom _ <- touch OpIndex o []; unm
   | LP idp => dom _ <- converse 8 [LP idp]; unm
   | LAny => unm
@@ -605,7 +640,7 @@ Definition do_op (op : nop) (a b : lval) : M lval :=
   | OpIslice =>
       dom n <- islice_count b;
       dom l <- iter_lval a;
-      ret (LT (match n with Some k => firstn k l | None => l end))
+      ret (LT (match n with Some k => take_z k l | None => l end))
   | OpIsinstance =>
       match b with
       | LV bv =>
@@ -705,7 +740,20 @@ Fixpoint eval (env loc : list lval) (e : hexp) {struct e} : M lval :=
       dom kv <- eval env loc kw;
       (* CPython: with no fixed arguments dict(kw) is evaluated before *star is iterated, otherwise after *)
       dom sk <- match tuple_items pv with
-                | [] => dom k <- kw_lval kv; dom l <- iter_lval sv; ret (l, k)
+                | [] => dom k <- kw_lval kv;
+                        (* "<callee> argument after * must be an iterable": CPython formats str(callee) into the message *)
+                        dom _ <- match fv, sv with
+                                 | LO o, LV p => match iter_elems false p with
+                                                 | Raise _ => dom _ <- touch OpFuncStr o []; ret tt
+                                                 | _ => ret tt
+                                                 end
+                                 | LP idp, LV p => match iter_elems false p with
+                                                   | Raise _ => dom _ <- converse 4 [LP idp]; unm
+                                                   | _ => ret tt
+                                                   end
+                                 | _, _ => ret tt
+                                 end;
+                        dom l <- iter_lval sv; ret (l, k)
                 | _ => dom l <- iter_lval sv; dom k <- kw_lval kv; ret (l, k)
                 end;
       let args := tuple_items pv ++ fst sk in
@@ -822,21 +870,21 @@ Definition handle_msg (msg : pyval) (answers : list panswer) (s0 : state) : stat
   let s := with_script (add_ev s0 EMsg) answers in
   match Vinegar.unpack 3 msg with
   | Ok [kind; seq; args] =>
-      match num_of kind with
-      | Some 1%Z => dispatch_request seq args s
-      | Some 2%Z =>
+      match match num_of kind with Some z => assoc_z z ML | None => None end with
+      | Some DRequest => dispatch_request seq args s
+      | Some DReply =>
           match unbox FUEL args s with
           | (s1, ROk _) => (s1, OIgnored)
           | (s1, RRaise x) => (end_conn s1, OEnd x)
           | (s1, RUnm) => (s1, OUnm)
           end
-      | Some 3%Z =>
+      | Some DException =>
           match load_exc args s with
           | (s1, ROk _) => (s1, OIgnored)
           | (s1, RRaise x) => (end_conn s1, OEnd x)
           | (s1, RUnm) => (s1, OUnm)
           end
-      | _ => (end_conn s, OEnd (XStd ValueError))       (* invalid message type *)
+      | None => (end_conn s, OEnd (XStd ValueError))    (* invalid message type *)
       end
   | Ok _ => (end_conn s, OEnd (XStd ValueError))
   | Raise e => (end_conn s, OEnd (XStd e))
@@ -906,6 +954,7 @@ Definition world_sem (w : world) (excs : list text) : sem unit :=
                     | OpIndex => RRaise (XStd ValueError)
                     | OpIsinstance => if od_class d then ROk (LV (PBool false)) else RRaise (XStd TypeError)
                     | OpGetMethods => ROk (LV (od_methods d))
+                    | OpFuncStr => ROk LAny
                     | _ => RUnm
                     end);
      s_val := fun op v _ =>
@@ -913,7 +962,11 @@ Definition world_sem (w : world) (excs : list text) : sem unit :=
                 | OpCall => RRaise (XStd TypeError)
                 | OpRepr | OpStr | OpDir | OpGetMethods => ROk LAny
                 | OpHash => ROk LAny
-                | OpIsinstance => RRaise (XStd TypeError)
+                | OpIsinstance => match v with
+                                  | PTuple [] => ROk (LV (PBool false))       (* isinstance(x, ()) *)
+                                  | PTuple _ => RUnm
+                                  | _ => RRaise (XStd TypeError)
+                                  end
                 | _ => RUnm
                 end;
      s_builtin_names := w_builtin w;
@@ -964,7 +1017,7 @@ Definition nop_name (op : nop) : string :=
   match op with
   | OpCall => "call" | OpRepr => "repr" | OpStr => "str" | OpHash => "hash" | OpDir => "dir" | OpIter => "iter"
   | OpIslice => "islice" | OpBool => "bool" | OpDict => "dict" | OpRaise => "raise" | OpCmp => "cmp" | OpIndex => "index"
-  | OpIsinstance => "isinstance" | OpGetMethods => "getmethods" | OpIdPack => "idpack" | OpHasConn => "hasconn" | OpPickle => "pickle"
+  | OpIsinstance => "isinstance" | OpGetMethods => "getmethods" | OpIdPack => "idpack" | OpHasConn => "hasconn" | OpPickle => "pickle" | OpFuncStr => "funcstr"
   end.
 Definition perm_idx (p : permkey) : Z := match p with PGet => 0 | PSet => 1 | PDel => 2 end%Z.
 Definition sx_of_oids (l : list oid) : sx := SL (map sN l).
@@ -1001,7 +1054,7 @@ Fixpoint session (S : sem unit) (s : hst unit) (msgs : list sx) : list sx :=
   | [] => []
   | SL [m; a] :: r =>
       let n0 := List.length (tr s) in
-      let '(s', o) := handle_msg S default_config handlers dispatch (pv_of_sx m) (map answer_of_sx (sx_l a)) s in
+      let '(s', o) := handle_msg S default_config handlers dispatch msg_ladder unbox_ladder box_ladder (pv_of_sx m) (map answer_of_sx (sx_l a)) s in
       let evs := rev (firstn (List.length (tr s') - n0) (tr s')) in
       SL [sx_of_out o; SL (map sx_of_event evs); sx_of_table (tbl s'); sbool (closed s'); sbool (approx s')] :: session S s' r
   | _ :: r => bad_input :: session S s r
